@@ -24,7 +24,12 @@ type GNode struct {
 	Q    *GNode
 	Kids []*GNode
 	Tab  map[string]*GNode
+	Idx  []GIndex           // maps of a named type as list elements (read by the generic value reader)
+	PM   *map[string]*GNode // the map of another field, or of another node, through a pointer
 }
+
+// a named map type: travels typed ('M' "GIndex" ...) wherever it stands
+type GIndex map[string]*GNode
 
 // the seven filler configurations: which non-container filler precedes the pointer fields
 func applyFiller(n *GNode, f int) {
@@ -111,6 +116,15 @@ func graphCanon(root interface{}) string {
 			}
 			b.WriteString("]")
 		case reflect.Map:
+			if v.Len() > 0 { // a map is one object too: two paths to one map must stay two paths to one map
+				if id, ok := ids[pkey{v.Pointer(), v.Type()}]; ok {
+					fmt.Fprintf(&b, "#%d", id)
+					return
+				}
+				id := len(ids)
+				ids[pkey{v.Pointer(), v.Type()}] = id
+				fmt.Fprintf(&b, "#%d=", id)
+			}
 			keys := v.MapKeys()
 			sort.Slice(keys, func(i, j int) bool { return fmt.Sprint(keys[i].Interface()) < fmt.Sprint(keys[j].Interface()) })
 			b.WriteString("m[")
@@ -154,11 +168,25 @@ func buildGraph(n int, slots []int, filler int, extra *rng) *GNode {
 			if i > 0 && extra.intn(4) == 0 {
 				nodes[i].Kids = nodes[extra.intn(i)].Kids // the same slice in two nodes
 			}
+			if extra.intn(3) == 0 {
+				// the same named map twice in one list, with another one in between, then more pointers
+				idx := GIndex{"a": pick(extra.intn(n + 1)), "b": pick(extra.intn(n + 1))}
+				nodes[i].Idx = []GIndex{idx, {"c": pick(extra.intn(n + 1))}, idx}
+			}
 			k = extra.intn(3)
 			if k > 0 {
 				nodes[i].Tab = map[string]*GNode{}
 				for j := 0; j < k; j++ {
 					nodes[i].Tab[fmt.Sprint("k", j)] = pick(extra.intn(n + 1))
+				}
+				switch extra.intn(6) {
+				case 0: // the same map through a pointer on the same node
+					m := nodes[i].Tab
+					nodes[i].PM = &m
+				case 1: // the map of an earlier node, shared as a plain field
+					if i > 0 && len(nodes[extra.intn(i)].Tab) > 0 {
+						nodes[i].Tab = nodes[extra.intn(i)].Tab
+					}
 				}
 			}
 		}
